@@ -6,7 +6,7 @@ from typing import Any
 
 from harness import bridge, common, engine_ser
 
-GAP_FINDINGS = {"flattened": "F-flattened-schema", "discriminated": "F-discriminated-schema"}
+GAP_FINDINGS = {"flattened": "F-flattened-schema", "discriminated": "F-discriminated-schema", "patoverlap": "F-pattern-overlap"}
 _state = {"key": None, "validator": None, "err": None}
 
 
